@@ -61,6 +61,25 @@ class Weaver:
         if uses:
             self.cur['chunks'].append(uses.strip('\n') + '\n')
 
+    def _auto_consts(self):
+        """constants added to an extracted source file since the contracts were written are extracted verbatim too
+        (they carry no obligations); functions are NOT auto-extracted"""
+        for m in self.modules:
+            rel = m['src']
+            if rel.endswith('lib.rs'):
+                continue
+            try:
+                text, items = self.source(rel)
+            except LostAnchor:
+                continue
+            done = set(m.get('item_keys', []))
+            for it in items:
+                if it.kind == 'const' and it.key() not in done and it.name not in ('CHARS_PER_ROW', 'HEX'):
+                    body = self._normalise(text[it.start:it.end], 'const')
+                    m['chunks'].append('// @ITEM %s (auto-extracted new constant, %s)\n%s\n' % (it.key(), rel, body))
+                    self._record_item(rel, it, body)
+                    m.setdefault('item_keys', []).append(it.key())
+
     def RAW(self, text):
         self.cur['chunks'].append(text.strip('\n') + '\n')
 
@@ -78,6 +97,7 @@ class Weaver:
         body = self._apply_rewrites(body, rewrites, key)
         body = self._normalise(body, it.kind, trait_impl=(it.kind == 'impl' and ' for ' in (it.header or '')), fields_pub=fields_pub)
         body = self._derive(body, derive_add, derive_drop, key)
+        self.cur.setdefault('item_keys', []).append(it.key())
         for a in attrs:
             body = '#[%s]\n' % a + body
         self.cur['chunks'].append('// @ITEM %s  (%s:%d)\n%s\n' % (key, rel, text.count('\n', 0, it.start) + 1, body))
@@ -560,6 +580,7 @@ def build(repo, out_path, vacuity=False, contracts_dir=None, preamble_dir=None):
         path = os.path.join(contracts_dir, name)
         code = compile(open(path, encoding='utf-8').read(), path, 'exec')
         exec(code, dict(env))
+    w._auto_consts()
     pre = [os.path.join(preamble_dir, l.strip()) for l in open(os.path.join(preamble_dir, 'ORDER')).read().split() if l.strip()]
     text = w.emit(pre)
     os.makedirs(os.path.dirname(os.path.abspath(out_path)), exist_ok=True)
